@@ -59,7 +59,7 @@ def _upload(ctx):
             if 'ensure_deleted' in N.txt(c) or
             K.is_meth(c, 'delete') and 'zkclient' in (K.recv_text(c) or '')]
     ctx.require(creates and dels, 'snapshot create and batch delete in '
-                                  'upload_batch')
+                                  'upload_batch', rule='C18.1')
     for node in dels:
         ok = K.guarded_by(graph, node, lambda e: e.src in creates and
                           e.kind != 'exc')
@@ -146,7 +146,7 @@ def _selection(ctx):
     ct = app.functions.get('cleanup_trace')
     cf = app.functions.get('cleanup_finished')
     ctx.require(ct is not None and cf is not None,
-                'cleanup_trace / cleanup_finished')
+                'cleanup_trace / cleanup_finished', rule='C18.2')
     for func, need_sched in ((ct, True), (cf, False)):
         graph = ctx.cfg(func)
         facts = N.must_facts(graph, nz)
@@ -160,7 +160,8 @@ def _selection(ctx):
                   if isinstance(s, ast.Subscript) and
                   isinstance(s.slice, ast.Slice) and
                   isinstance(s.value, ast.Name)]
-        ctx.require(sliced, 'batch slicing in %s' % func.qualname)
+        ctx.require(sliced, 'batch slicing in %s' % func.qualname,
+            rule='C18.2')
         lst = sliced[0]
         for _hop in range(3):
             if len(defs.get(lst.id, [])) == 1 and \
@@ -173,7 +174,7 @@ def _selection(ctx):
         adds = [(by_ast[id(p['node'])], p) for p in parts
                 if id(p['node']) in by_ast and
                 isinstance(p['elt'], ast.Tuple)]
-        ctx.require(adds, 'selection into %s' % lst.id)
+        ctx.require(adds, 'selection into %s' % lst.id, rule='C18.2')
         for node, part in adds:
             elts = part['elt'].elts
             when = elts[0] if len(elts) == 3 else (
@@ -235,12 +236,12 @@ def _full_batches(ctx, app):
     funcs = [app.functions.get('cleanup_trace'),
              app.functions.get('cleanup_finished'),
              srv.functions.get('cleanup_server_trace')]
-    ctx.require(all(funcs), 'the three archivers')
+    ctx.require(all(funcs), 'the three archivers', rule='C18.3')
     for func in funcs:
         graph = ctx.cfg(func)
         ups = [n for n, c in K.nodes_calling(
             graph, lambda c: K.is_meth(c, 'upload_batch'))]
-        ctx.require(ups, 'upload_batch call in %s' % func.name)
+        ctx.require(ups, 'upload_batch call in %s' % func.name, rule='C18.3')
         # len(<the collection uploaded, or the slice it is built from>) >=
         # <the batch size parameter>, whatever the locals are called
         size = [p for p in func.params() if 'batch' in p and 'size' in p]
@@ -307,7 +308,7 @@ def _keep_newest(ctx, mod):
            'history nodes are sorted ascending (oldest first)',
            construct='history order')
     loops = [n for n in graph.nodes if n.kind == 'for']
-    ctx.require(loops, 'delete loop of _zk.cleanup')
+    ctx.require(loops, 'delete loop of _zk.cleanup', rule='C18.4')
     max_count = func.params()[2]
     for loop in loops:
         it = loop.ast.iter
@@ -353,7 +354,8 @@ def _schema(ctx, mod, up, app):
     usrc = ast.unparse(up.node)
     m = re.search(r'INSERT INTO ' + _TABLE + r' \(\s*([^)]*?)\s*\) VALUES'
                   r'\(([^)]*)\)', usrc)
-    ctx.require(m is not None, 'INSERT statement of upload_batch')
+    ctx.require(m is not None, 'INSERT statement of upload_batch',
+        rule='C18.5')
     cols = [c.strip().replace('\\n', '').strip()
             for c in m.group(1).replace('\\n', ' ').split(',')]
     cols = [c for c in cols if c]
@@ -442,7 +444,7 @@ def _callers_and_readers(ctx, app):
                            construct='daemon arguments of cleanup_%s' % kind,
                            file=daemon.rel)
         ctx.require(seen == 2, 'cleanup_trace / cleanup_finished calls of '
-                               'the trace daemon')
+                               'the trace daemon', rule='C18.5')
     loop_cls = app.classes.get('AppTraceLoop')
     ctx.require(loop_cls is not None, 'trace.app.zk.AppTraceLoop')
     reader = loop_cls.methods.get('_process_db_events')
@@ -450,7 +452,7 @@ def _callers_and_readers(ctx, app):
     graph = ctx.cfg(reader)
     loops = [n for n in graph.nodes if n.kind == 'for' and
              'TRACE_HISTORY' in K.rtxt(reader, n.ast.iter)]
-    ctx.require(loops, 'loop over the trace snapshots')
+    ctx.require(loops, 'loop over the trace snapshots', rule='C18.5')
     for loop in loops:
         early = [e for e in K.loop_exit_edges(loop)
                  if e.kind not in ('done', 'exc')]
